@@ -26,7 +26,7 @@ PROPS = {
     'C13': {'units': ['sym', 'symx', 'airlay'], 'kani': []},
     'C09': {'units': ['prep', 'mult', 'pread', 'pphase', 'ptrace'], 'kani': [], 'exclude': r'H_the_preprocessed_row_of_a_constant_commits_its_value'},
     'C08': {'units': ['mmcs', 'hash', 'mbind', 'vbatch', 'vbatchx', 'a4sched', 'a4path'], 'kani': []},
-    'C16': {'units': ['meta', 'vrfy', 'serde16', 'manif', 'rcplug'], 'kani': []},
+    'C16': {'units': ['meta', 'vrfy', 'serde16', 'manif', 'rcplug', 'alu'], 'kani': [], 'only': {'alu': r'AluAir::eval'}},
     'C11': {'units': ['air', 'alu', 'run19', 'tracegen', 'pchain', 'prep', 'sched'], 'kani': [], 'only': {'run19': r'execute_alu_op', 'prep': r'H_the_preprocessed_row_of_a_constant_commits_its_value', 'sched': r'true_iff_every_op_of_the_window_reads_the_same_b'}},
 }
 
